@@ -462,6 +462,18 @@ def run_check(prop: str, tier: str, replay: str | None, module) -> int:
     if impl_file != want:
         raise InternalError(f"irispie is imported from {impl_file}, not from {want}")
 
+    # watchdog: a run that does not finish (a LAPACK routine that never returns on non-finite input has been seen once while the
+    # checks were being built) ends as an internal error (exit 2, "timeouts are exit 2"), never as a silent hang
+    import threading
+    limit = int(os.environ.get("VERIF_TIMEOUT_S") or (1800 if tier == "quick" else 7200))
+
+    def _watchdog():
+        print(f"INTERNAL-ERROR property={prop}: no result after {limit}s (watchdog)", flush=True)
+        os._exit(2)
+    _timer = threading.Timer(limit, _watchdog)
+    _timer.daemon = True
+    _timer.start()
+
     level = getattr(module, "LEVEL", "proof")
     drivers = getattr(module, "DRIVERS", [prop])
     lean = Lean(prop, drivers, log, getattr(module, "EXTRA_PROPS", None))
